@@ -140,9 +140,9 @@ fn frame_gumbel_f64(d: &Gumbel<f64>, rng: &mut SymRng) -> f64 {
 #[kani::proof_for_contract(frame_gumbel_f64)]
 #[kani::stub(libm::log, c_ln64)]
 fn c14_frame_gumbel_f64() {
+    let mut rng = SymRng::new(2); // all symbolic inputs are drawn first (replay alignment)
     let d = Gumbel::<f64> { location: kani::any(), scale: kani::any() };
     let before = (d.location.to_bits(), d.scale.to_bits());
-    let mut rng = SymRng::new(2);
     let _ = frame_gumbel_f64(&d, &mut rng);
     vassert!(before == (d.location.to_bits(), d.scale.to_bits()), "sampling changed the distribution value");
     kani::cover!(rng.pos == 1, "sample returned");
